@@ -80,7 +80,9 @@ RULE = ('one case = one planting (p_th, nu, A, B, C, distance set, number of rat
         'positions) end with the RuntimeError scipy raises at maxfev; fewer than half fail, so every clause must '
         'still hold with a finite threshold. Family sectors: the X-block and Z-block failure rates of one data '
         'set are planted with different thresholds (codes with k = 1 and k = 2) and Analysis.sector_thresholds '
-        'must recover each sector\'s own threshold')
+        'must recover each sector\'s own threshold. Family chunks: the trials of every (distance, rate) point are '
+        'spread over 1..4 result files (number varying with distance and rate, unequal chunk sizes 3:1:4:2, later '
+        'chunks without failures), files supplied in orders that change which chunk of a point is read first')
 ASSUMPTIONS = [
     'documented ansatz f = A + B x + C x^2 with x = (p - p_th) d^nu (property statement; fit_function, rescale_prob)',
     'N trials per point (2000; unequal 4000..1000 per distance; 200/300/500 in the low-statistics families), '
@@ -110,7 +112,8 @@ BOUNDS = {
                            '3 orders',
               'refit_failures': '3 scripted failure patterns (1, 2, 49 of 100 re-fits), one planting each, 3 orders',
               'sectors': '2 cases (Planar2D k=1 d=3,5,7; Toric2D k=2 d=4,6,8), X and Z thresholds planted, '
-                         '3 orders'},
+                         '3 orders',
+              'chunks': '2 plantings, 12 / 16 result files, 3 orders'},
     'thorough': {'grid': _GRID, 'window_half_width': {str(k): v for k, v in _HALF.items()},
                  'distance_sets': _DSETS, 'n_rates': _NRATES, 'n_trials': 2000, 'code': 'Toric2DCode LxL',
                  'plantings': 'full lattice filtered to 0 < f < 1, equal and unequal trial counts',
@@ -119,7 +122,8 @@ BOUNDS = {
                  'multi_set': '4 varied fields x 4 planting pairs x 2 distance sets filtered to 0 < f < 1 = 28 '
                               'cases, 2 planted sets each, 6 orders',
                  'refit_failures': '5 scripted failure patterns x 4 plantings = 20 cases, 3 orders',
-                 'sectors': '4 (code, distance set) x 3 (X, Z) planting pairs = 12 cases, 3 orders'},
+                 'sectors': '4 (code, distance set) x 3 (X, Z) planting pairs = 12 cases, 3 orders',
+                 'chunks': '6 plantings, 12 / 16 result files, 6 orders'},
 }
 BUDGET_S = {'quick': 600, 'thorough': 3600}
 
@@ -160,15 +164,52 @@ def _file_orders(k):
 
 
 def _row_order(shuffle, n):
-    if shuffle == 0:
+    if shuffle == 0 or n < 3:
         return list(range(n))
     if shuffle == 1:
         return list(range(n))[::-1]
-    m = 4 if math.gcd(4, n) == 1 else 3             # a multiplier coprime with n (7, 9 -> 4; 8 -> 3): an interleave
+    # an interleave: multiplier coprime with n (7, 9 -> 4; 8 -> 3; 6 -> 5; ...)
+    m = next(m for m in [4, 3] + list(range(5, n + 2)) if math.gcd(m, n) == 1)
     order = [(m * i) % n for i in range(n)]
     if sorted(order) != list(range(n)):
         raise AssertionError('row shuffle is not a permutation for n=%d' % n)
     return order
+
+
+_CHUNK_WEIGHTS = [3, 1, 4, 2]
+
+
+def _chunk_count(di, ri):
+    """Number of result files the trials of the point (distance index, rate index) are spread over: 1..4,
+    varying with both the distance and the rate."""
+    return 1 + (2 * di + ri) % 4
+
+
+def _chunk_files(nd, nr):
+    return sum(max(_chunk_count(di, ri) for ri in range(nr)) for di in range(nd))
+
+
+def _split(rec, c):
+    """Split one planted record into c records of unequal trial counts (weights 3:1:4:2) holding consecutive slices
+    of the per-trial arrays - the form in which several runs of the same input (run-parallel tasks, restarts into
+    other files) leave one (code, error rate) point in several result files.  Failures sit at the start of the
+    trial arrays, so the first chunk is (nearly) all failures and later chunks have none."""
+    r = rec['results']
+    n = r['n_runs']
+    w = _CHUNK_WEIGHTS[:c]
+    sizes = [n * x // sum(w) for x in w]
+    sizes[-1] += n - sum(sizes)
+    out, a = [], 0
+    for size in sizes:
+        b = a + size
+        out.append({'inputs': json.loads(json.dumps(rec['inputs'])),
+                    'results': {'n_runs': size, 'wall_time': r['wall_time'] * size / n,
+                                'effective_error': r['effective_error'][a:b], 'success': r['success'][a:b],
+                                'codespace': r['codespace'][a:b]}})
+        a = b
+    if a != n or set(rec) != {'inputs', 'results'}:
+        raise AssertionError('bad split')
+    return out
 
 
 def _lattice():
@@ -331,6 +372,28 @@ def _sector_lattice(tier):
     return out
 
 
+def _chunk_lattice(tier):
+    """Family 'chunks': the trials of every planted (distance, rate) point are spread over 1..4 result files, the
+    number varying with distance and rate, with unequal chunk sizes and chunks without failures; the files are
+    supplied in several orders (so that another chunk of a point is read first). All clauses of the single-file
+    planting apply: the analysis must pool the chunks of a point."""
+    plantings = [[0.1, 1.0, 0.35, 0.8, 1.0, [3, 5, 7], 7], [0.1, 0.8, 0.35, 1.5, 1.0, [4, 6, 8, 10], 9],
+                 [0.06, 1.25, 0.25, 0.8, 0.5, [3, 5, 7], 9], [0.15, 1.0, 0.25, 0.8, 0.5, [4, 6, 8, 10], 7],
+                 [0.15, 0.8, 0.25, 1.5, 0.5, [3, 5, 7], 7], [0.06, 1.0, 0.35, 0.8, 0.5, [4, 6, 8, 10], 9]]
+    if tier == 'quick':
+        plantings = plantings[:2]
+    out = []
+    for p_th, nu, A, B, C, ds, nr in plantings:
+        fs = [_ansatz(p, d, p_th, nu, A, B, C) for p in _rates(p_th, _HALF[p_th], nr) for d in ds]
+        if not (min(fs) > 0 and max(fs) < 1):
+            raise AssertionError('chunks planting leaves (0,1)')
+        perms = _file_orders(_chunk_files(len(ds), nr))[:3 if tier == 'quick' else 6]
+        out.append({'family': 'chunks', 'chunks': '1..4 varying', 'p_th': p_th, 'nu': nu, 'A': A, 'B': B, 'C': C,
+                    'ds': list(ds), 'nrates': nr, 'half': _HALF[p_th], 'cls': 'Toric2DCode',
+                    'n_trials': N_TRIALS, 'orders': [[perm, k % 3] for k, perm in enumerate(perms)]})
+    return out
+
+
 def cases(tier, seed):
     lat = _lattice()
     n_orders = BOUNDS[tier]['orders_per_planting']
@@ -376,6 +439,7 @@ def cases(tier, seed):
     out.extend(_multi_lattice(tier))
     out.extend(_refit_lattice(tier))
     out.extend(_sector_lattice(tier))
+    out.extend(_chunk_lattice(tier))
     return out
 
 
@@ -452,6 +516,8 @@ def _key(case, kind, **kw):
         k.update({'varied': case['varied'], 'set': case['set'], 'n_sets': case['n_sets']})
     if case.get('sector'):              # planted sector rates: which sector table, which code
         k.update({'sector': case['sector'], 'cls': case['cls']})
+    if case.get('chunks'):              # every point spread over a varying number of result files
+        k['files_per_point'] = case['chunks']
     if case.get('refit_failures') is not None:      # scripted environment: which bootstrap re-fits fail
         k.update({'pattern': case['pattern'], 'failed_refits': len(case['refit_failures'])})
     k.update(kw)
@@ -668,7 +734,14 @@ def eval_case(case):
                         _plant(rec, nf, Nd[d])
                         tables['total'][(d, round(p, 6))] = nf
                         denoms['total'][d] = Nd[d]
-                units.append((si, d, data))
+                if sd.get('chunks'):
+                    # every point spread over 1..4 files: file c of distance d holds chunk c of the points that
+                    # have more than c chunks
+                    parts = [_split(rec, _chunk_count(ds.index(d), ri)) for ri, rec in enumerate(data)]
+                    for c in range(max(len(pt) for pt in parts)):
+                        units.append((si, 'd%d-c%d' % (d, c), [pt[c] for pt in parts if len(pt) > c]))
+                else:
+                    units.append((si, d, data))
             for v in tables:
                 tsd = sd
                 if sectors:
@@ -687,8 +760,8 @@ def eval_case(case):
         first = None
         for perm, shuffle in case['orders']:
             files = []
-            for si, d, data in units:
-                path = os.path.join(sb, 'results_s%d_d%d.json' % (si, d))
+            for si, label, data in units:
+                path = os.path.join(sb, 'results_s%d_%s.json' % (si, label))
                 with open(path, 'w') as f:
                     json.dump([data[j] for j in _row_order(shuffle, len(data))], f)
                 files.append(path)
@@ -697,7 +770,7 @@ def eval_case(case):
             if len(sets) == 1:
                 okey = {'file_order': [units[i][1] for i in perm], 'row_shuffle': shuffle}
             else:
-                okey = {'file_order': ['s%d-d%d' % units[i][:2] for i in perm], 'row_shuffle': shuffle}
+                okey = {'file_order': ['s%d-d%s' % units[i][:2] for i in perm], 'row_shuffle': shuffle}
             if seen['env'] is not None:
                 # the scripted answers were consumed, and fewer than half of the re-fits failed (premise of the
                 # documented rule "failed re-fits are dropped when they are fewer than 50%")
@@ -734,7 +807,7 @@ def eval_case(case):
                 first = (okey, matched)
                 res['outcomes'].append('|'.join('%s,%.4f,%.4f' % (
                     o['fit_status'][:12], o['p_th_fss'], (o['p_th_fss_right'] - o['p_th_fss_left']) / 2)
-                    for _, o in matched) + '|' + digest + '|' + str(case.get('varied') or case.get('pattern') or ''))
+                    for _, o in matched) + '|' + digest + '|' + str(case.get('varied') or case.get('pattern') or case.get('chunks') or ''))
             else:
                 for (t, ref), (_, obs) in zip(first[1], matched):
                     res['extra']['orders_compared'] += 1
